@@ -277,6 +277,9 @@ def roles(F, e, at, st=None, depth=0):
                     out |= roles(F, el[p[0]], d, st, depth + 1)
             elif k == 'slot':
                 i, n, call = p
+                if isinstance(call, ast.Name):       # the tuple went through a local first
+                    v2, d2 = F.value_of(d, call.id)
+                    call = v2 if v2 is not None else call
                 if n == 3 and isinstance(call, ast.Call) and astx.callee_attr(call) == 'get_bounds_scaling' \
                         and astx.path(astx.receiver(call)) == 'self._autoscaler' and call.args and \
                         astx.const_str(call.args[0]) == 'constraint' and F.slots:
@@ -2587,6 +2590,15 @@ def _lookup_helper(ret="meta['total_scaler'], meta['total_adder']"):
 
 selftest(
     'C21',
+    # ---- fourth robustness round: bounds tuple kept in a local, then unpacked
+    Twin('twin-bounds-tuple-local-then-unpacked', _S,
+         "        lower_con, upper_con, equals_con = self._autoscaler.get_bounds_scaling('constraint')\n",
+         "        scaled_bounds = self._autoscaler.get_bounds_scaling('constraint')\n"
+         "        lower_con, upper_con, equals_con = scaled_bounds\n", nth=1),
+    Mutant('cover-bounds-tuple-local-unpack-swapped', _S,
+           "        lower_con, upper_con, equals_con = self._autoscaler.get_bounds_scaling('constraint')\n",
+           "        scaled_bounds = self._autoscaler.get_bounds_scaling('constraint')\n"
+           "        upper_con, lower_con, equals_con = scaled_bounds\n", 'C21.cover', nth=1),
     # ---- third robustness round: wrappers in temporaries, positional LinearConstraint, returned alias of self.fail
     Twin('twin-wrapper-temporaries-positional-linear', _S, _NL_BODY_OLD, **_temps_shape()),
     Mutant('newbounds-temps-fun-is-confunc', _S, _NL_BODY_OLD, expect='C21.newbounds', **_temps_shape(fun='_confunc')),
